@@ -56,6 +56,64 @@ def documented_defaults():
     return out
 
 
+TRACE_BOX = [[], None]      # events recorded during the last replay_one, candidate sources per option
+
+
+def _norm(v):
+    return list(v) if isinstance(v, tuple) else v
+
+
+def per_ok(beh, opt, src):
+    return beh["asg"].get(opt, {}).get(src) == "ok"
+
+
+def recording_configuration(base, events, sfile, userfile):
+    """confuse.Configuration as cminx.main uses it, with one event per call that changes or reads the source list
+    (the linearisation point in a sequential program is the return of the call; logged on the error path too)"""
+    def project(conf):
+        out = []
+        for s in conf.sources:
+            fn = getattr(s, "filename", None)
+            if getattr(s, "default", False):
+                out.append("defaults")
+            elif fn is None:
+                out.append("cli")
+            elif os.path.realpath(fn) == os.path.realpath(sfile):
+                out.append("sfile")
+            elif os.path.realpath(fn) == os.path.realpath(userfile):
+                out.append("user")
+            else:
+                out.append("other:" + os.path.basename(fn))
+        return out
+
+    class Recording(base):
+        def __init__(self, *a, **k):
+            super().__init__(*a, **k)
+            events.append({"ev": "LoadDefaultsAndUser", "stack": project(self)})
+
+        def set_file(self, *a, **k):
+            try:
+                return super().set_file(*a, **k)
+            finally:
+                events.append({"ev": "SetFile", "stack": project(self)})
+
+        def set_args(self, *a, **k):
+            try:
+                return super().set_args(*a, **k)
+            finally:
+                events.append({"ev": "SetArgs", "stack": project(self)})
+
+        def get(self, *a, **k):
+            ev = {"ev": "Validate", "stack": project(self), "status": "rejected"}
+            try:
+                r = super().get(*a, **k)
+                ev["status"] = "ok"
+                return r
+            finally:
+                events.append(ev)
+    return Recording
+
+
 def replay_one(beh, kinds, sandbox, variant):
     import yaml
     import cminx
@@ -113,10 +171,15 @@ def replay_one(beh, kinds, sandbox, variant):
         if two and os.path.basename(os.path.normpath(f)) == "first":
             real(f, s)
     cminx.document = spy
+    events = []
+    real_conf = cminx.Configuration
+    cminx.Configuration = recording_configuration(real_conf, events, spath, os.path.join(userdir, "config.yaml"))
     try:
         exc, _ = naming.run_main(argv, work, home)
     finally:
         cminx.document = real
+        cminx.Configuration = real_conf
+    TRACE_BOX[:] = [events, None]
     exp = {}
     if beh["status"] == "rejected":
         return {"rejected": True}, {"rejected": exc is not None and "Config" in exc, "exc": exc}, argv, files
@@ -124,6 +187,7 @@ def replay_one(beh, kinds, sandbox, variant):
         return {"rejected": False}, {"rejected": True, "exc": exc}, argv, files
     s = captured[-1]
     obs = {}
+    cands = {}
     for opt, src in beh["ideal"].items():
         sec, key = opt.split(".")
         got = getattr(getattr(s, sec), key)
@@ -147,6 +211,15 @@ def replay_one(beh, kinds, sandbox, variant):
             got = list(got)
         exp[opt] = want
         obs[opt] = got
+        # binding B: the sources whose value is the one found in the Settings object (TraceConfig.tla: Validate)
+        if opt in ("input.exclude_filters", "output.directory"):
+            cands[opt] = ["cli", "sfile", "user", "defaults", "none"]
+        else:
+            cands[opt] = [x for x in ("cli", "sfile", "user") if per_ok(beh, opt, x) and
+                          _norm(value(opt, kinds[opt], x, variant, defaults)) == _norm(got)]
+            if _norm(defaults.get(opt)) == _norm(got):
+                cands[opt] += ["defaults", "none"]
+    TRACE_BOX[1] = cands
     return exp, obs, argv, files
 
 
@@ -162,7 +235,11 @@ def _chunk(args):
                     ok = obs["rejected"]
                 else:
                     ok = exp == obs
-                out.append((n, variant, ok, exp, obs, argv, files))
+                events, cands = TRACE_BOX
+                for e in events:
+                    if e["ev"] == "Validate":
+                        e["cands"] = cands or {}
+                out.append((n, variant, ok, exp, obs, argv, files, list(events)))
             finally:
                 subprocess.run(["rm", "-rf", sb])
     return out
@@ -179,14 +256,16 @@ def replay(run, behs, kinds, seed, limit=None):
         behs = lib.covering_sample(behs, lambda b: dict({o: json.dumps(v, sort_keys=True) for o, v in b["asg"].items()}, rtc=b["rtc"]), limit, seed)
         run.exhaustive = False
     base = tempfile.mkdtemp(prefix="verif_c16_", dir="/dev/shm" if os.path.isdir("/dev/shm") else None)
+    traces = []
     try:
         items = list(enumerate(behs))
         chunks = [(items[i::lib.NCPU * 2], kinds, base) for i in range(lib.NCPU * 2)]
         chunks = [c for c in chunks if c[0]]
         with ProcessPoolExecutor(max_workers=lib.NCPU, initializer=_init, initargs=(lib.CMINX_SRC,)) as ex:
             for part in ex.map(_chunk, chunks):
-                for n, variant, ok, exp, obs, argv, files in part:
+                for n, variant, ok, exp, obs, argv, files, events in part:
                     beh = behs[n]
+                    traces.append({"id": "%d/%d" % (n, variant), "asg": beh["asg"], "rtc": beh["rtc"], "events": events})
                     run.behaviours += 1
                     run.count(json.dumps([beh["asg"], beh["rtc"], variant], sort_keys=True))
                     if not ok:
@@ -195,5 +274,52 @@ def replay(run, behs, kinds, seed, limit=None):
                                       exp, obs, "the settings handed to cminx.document() are not those the layering rule prescribes")
         if behs:
             run.sample({"asg": behs[0]["asg"], "rtc": behs[0]["rtc"], "ideal_source": behs[0]["ideal"]})
+        validate_traces(run, traces, base)
     finally:
         subprocess.run(["rm", "-rf", base])
+
+
+def validate_traces(run, traces, base):
+    """binding B: the recorded calls of main() on confuse's source list against the actions of Config.tla (TraceConfig.tla).
+    A trace the actions cannot explain is drift of the specification (the verdict about the property comes from the
+    values, above); a corrupted copy must be rejected or the binding does not bite."""
+    if not traces:
+        return
+    import copy
+    bad = copy.deepcopy(next((t for t in traces if len(t["events"]) >= 3), traces[0]))
+    bad["id"] = "~selftest-corrupted-copy"
+    if len(bad["events"]) >= 3:
+        bad["events"][2]["stack"] = list(reversed(bad["events"][2]["stack"]))
+    else:
+        bad["events"] = bad["events"][:-1]
+    st = run.notes.setdefault("config_traces", {"validated": 0, "events": 0, "model_disagrees": 0, "corrupted_copy_rejected": False})
+    for i in range(0, len(traces), 1500):
+        part = traces[i:i + 1500] + ([bad] if i == 0 else [])
+        path = os.path.join(base, "conf_batch_%d.json" % i)
+        with open(path, "w") as fh:
+            json.dump({"traces": part}, fh)
+        res = lib.run_tlc("TraceConfig", "CONSTANT Dev <- NoDevT\nCONSTANT Options <- MCOptions\nCONSTANT FocusSets <- Singles\n"
+                                         "CONSTANT AllowBad = TRUE\nINIT TInit\nNEXT TNext\n",
+                          env={"TRACE_FILE": path}, tags=("END", "REJ"), coverage=False)
+        ends, rejs = res.lines.get("END", []), res.lines.get("REJ", [])
+        if len(ends) + len(rejs) != len(part):
+            raise lib.MachineryError("config trace validation lost traces: %d verdicts for %d traces\n%s"
+                                     % (len(ends) + len(rejs), len(part), res.stdout[-1500:]))
+        run.states += res.distinct
+        run.transitions += res.generated
+        run.tlc_runs.append({"config": "TraceConfig", "distinct_states": res.distinct, "states_generated": res.generated,
+                             "wall_s": round(res.wall, 1), "traces": len(part)})
+        if any(e["id"] == bad["id"] for e in ends):
+            raise lib.MachineryError("TraceConfig accepted a trace with a reversed source list: the binding does not bite")
+        for e in ends:
+            if not (e["precedence"] and e["rejected_as_stated"] and e["excludes"]):
+                raise lib.MachineryError("TraceConfig: an accepted trace ends in a state where the model's own invariants fail: %r" % (e,))
+        run.traces += len(ends)
+        st["validated"] += len(ends)
+        st["events"] += sum(e["events"] for e in ends)
+        for r in rejs:
+            if r["id"] == bad["id"]:
+                st["corrupted_copy_rejected"] = True
+                continue
+            st["model_disagrees"] += 1
+            run.drifted({"config_trace": r["id"], "rejection": r})
